@@ -801,10 +801,24 @@ impl Gen {
 
     fn template(&mut self) -> D {
         // rare deliberately erroneous templates: nothing is prescribed for them except termination
-        if !self.vars.is_empty() && self.rng.chance(3, 100) {
+        if !self.vars.is_empty() && self.rng.chance(4, 100) {
             let (v, d) = self.rng.pick(&self.vars.clone()).clone();
             let e = D::Sym(self.ell.clone());
-            return match self.rng.below(3) {
+            let deep: Vec<(String, usize)> = self.vars.iter().filter(|(_, vd)| *vd == 1).cloned().collect();
+            return match self.rng.below(4) {
+                3 if !deep.is_empty() => {
+                    // the ill-formed piece sits inside a repetition that is itself well driven
+                    self.tag("erroneous:undriven-ellipsis-inside-a-repetition");
+                    let w = self.rng.pick(&deep).0.clone();
+                    let plain: Vec<String> = self.vars.iter().filter(|(_, vd)| *vd == 0).map(|(n, _)| n.clone()).collect();
+                    let c = if !plain.is_empty() && self.rng.chance(1, 2) { D::Sym(self.rng.pick(&plain).clone()) } else { D::Int(5) };
+                    let inner = match self.rng.below(3) {
+                        0 => list(vec![D::Sym(w), list(vec![c, e.clone()])]),
+                        1 => list(vec![list(vec![c, e.clone()]), D::Sym(w)]),
+                        _ => list(vec![D::Sym(w.clone()), list(vec![sym("foo"), list(vec![c, e.clone()])]), D::Sym(w)]),
+                    };
+                    list(vec![inner, e])
+                }
                 0 => {
                     self.tag("erroneous:too-many-ellipses");
                     let mut items = vec![sym("foo"), D::Sym(v)];
@@ -1068,6 +1082,27 @@ impl Gen {
                 } else {
                     list(vec![D::Sym(s.clone())])
                 }
+            }
+            // a datum of another kind that is displayed with the same characters
+            D::Int(n) if self.rng.chance(1, 2) => {
+                self.tag("look-alike-datum");
+                D::Str(n.to_string())
+            }
+            D::Str(t) if self.rng.chance(1, 2) => {
+                self.tag("look-alike-datum");
+                if t.is_empty() || !t.chars().all(|c| c.is_ascii_lowercase()) { D::Char('"') } else if t.len() == 1 && self.rng.chance(1, 2) { D::Char(t.chars().next().unwrap()) } else { D::Sym(t.clone()) }
+            }
+            D::Bool(b) if self.rng.chance(1, 2) => {
+                self.tag("look-alike-datum");
+                D::Str(if *b { "#t" } else { "#f" }.to_string())
+            }
+            D::Char(c) if self.rng.chance(1, 2) => {
+                self.tag("look-alike-datum");
+                if self.rng.chance(1, 2) { D::Sym(c.to_string()) } else { D::Str(c.to_string()) }
+            }
+            D::List(items, None) if items.is_empty() && self.rng.chance(1, 2) => {
+                self.tag("look-alike-datum");
+                D::Str("()".to_string())
             }
             _ => self.datum(0),
         }
